@@ -3,6 +3,7 @@ package main
 import (
 	"fmt"
 	"math"
+	"runtime"
 	"sync"
 	"sync/atomic"
 	"time"
@@ -19,7 +20,10 @@ func runC02(c *mon.Ctx) {
 	case "lifecycle":
 		c.Cases(func(i int, r *mon.Rand) { lifecycleCase(c, r, "C02") })
 	case "stress":
-		c.Cases(func(i int, r *mon.Rand) { c02Stress(c, r) })
+		c.Cases(func(i int, r *mon.Rand) {
+			c02Stress(c, r)
+			c02PendingRace(c, r.Fork(77))
+		})
 	default:
 		c.Cases(func(i int, r *mon.Rand) { c02Token(c, r) })
 	}
@@ -198,6 +202,13 @@ func c02Stress(c *mon.Ctx, r *mon.Rand) {
 	nUpd := 4
 	gauges := make([]tally.Gauge, G)
 	names := make([]string, G)
+	if wide {
+		// the root's gauges under test come after 250-260 gauges that are never
+		// updated (positions around 256 in the scope's list of gauges)
+		for k, n := 0, r.Range(250, 260); k < n; k++ {
+			root.Gauge(fmt.Sprintf("pad%d", k))
+		}
+	}
 	for i := range gauges {
 		if wide && i < 16 {
 			gauges[i] = root.Gauge(fmt.Sprintf("g%d", i))
@@ -297,4 +308,74 @@ func c02Stress(c *mon.Ctx, r *mon.Rand) {
 		}
 		c.Sample(s)
 	}
+}
+
+// lastGaugeRep is a reporter that only remembers the bits of the most recent
+// gauge delivery (cheap enough for passes to run back to back).
+type lastGaugeRep struct {
+	last uint64
+	n    int64
+}
+
+func (p *lastGaugeRep) ReportCounter(name string, tags map[string]string, value int64) {}
+func (p *lastGaugeRep) ReportGauge(name string, tags map[string]string, value float64) {
+	atomic.StoreUint64(&p.last, math.Float64bits(value))
+	atomic.AddInt64(&p.n, 1)
+}
+func (p *lastGaugeRep) ReportTimer(name string, tags map[string]string, interval time.Duration) {}
+func (p *lastGaugeRep) ReportHistogramValueSamples(name string, tags map[string]string, buckets tally.Buckets, lo, hi float64, samples int64) {
+}
+func (p *lastGaugeRep) ReportHistogramDurationSamples(name string, tags map[string]string, buckets tally.Buckets, lo, hi time.Duration, samples int64) {
+}
+func (p *lastGaugeRep) Capabilities() tally.Capabilities { return p }
+func (p *lastGaugeRep) Reporting() bool                  { return true }
+func (p *lastGaugeRep) Tagging() bool                    { return true }
+func (p *lastGaugeRep) Flush()                           {}
+
+// c02PendingRace: an update of a gauge that is already pending races the pass
+// that takes the pending value. One gauge, passes back to back from one
+// goroutine, and thousands of trials of two updates in a row: two complete
+// passes after the second update returned, the most recent delivery must carry
+// its value.
+func c02PendingRace(c *mon.Ctx, r *mon.Rand) {
+	rep := &lastGaugeRep{}
+	root, closer := vNewRoot(tally.ScopeOptions{Reporter: rep, OmitCardinalityMetrics: true}, 0, 1)
+	g := root.Gauge("g")
+	var passes uint64
+	var stop int32
+	var wg sync.WaitGroup
+	wg.Add(1)
+	go func() {
+		defer wg.Done()
+		for atomic.LoadInt32(&stop) == 0 {
+			tally.VerifReportPass(root)
+			atomic.AddUint64(&passes, 1)
+		}
+	}()
+	trials := 4000
+	racing := int64(0)
+	for t := 0; t < trials; t++ {
+		v1, v2 := float64(2*t+1), float64(2*t+2)
+		n0 := atomic.LoadInt64(&rep.n)
+		g.Update(v1)
+		g.Update(v2)
+		p0 := atomic.LoadUint64(&passes)
+		for n := 0; atomic.LoadUint64(&passes) < p0+2; n++ {
+			if n > 200 {
+				runtime.Gosched()
+			}
+		}
+		if atomic.LoadInt64(&rep.n)-n0 >= 2 {
+			racing++ // a pass took the first value while the second update was under way or just before it
+		}
+		if got := atomic.LoadUint64(&rep.last); got != math.Float64bits(v2) {
+			c.Violation("stale-value", map[string]interface{}{"why": fmt.Sprintf("trial %d: a gauge was updated to %v and at once to %v; two complete passes after the second update returned the most recent delivery carries %v", t, v1, v2, math.Float64frombits(got))})
+			break
+		}
+	}
+	atomic.StoreInt32(&stop, 1)
+	wg.Wait()
+	closer.Close()
+	c.Event("pending-update-trials", int64(trials))
+	c.Event("pending-update-trials-with-a-pass-between-or-during-the-two-updates", racing)
 }
